@@ -171,15 +171,52 @@ func (rn *runner) tie(ep *epoch, rp Replay) {
 				Model: ans, Impl: got})
 		}
 	}
+	// In the stable-application cases the Lean driver EXECUTES the model of the state machine
+	// (C12's transcription) itself: it is given the inputs, and both the actions it computes and
+	// the effects of executing them are compared with the real machine / the real driver.
+	machine := ep.cfg.AppMode == "stable"
+	checkM := func(ci int, ans, what string) {
+		c := ep.calls[ci]
+		f := strings.SplitN(ans, " | ", 2)
+		if len(f) == 1 {
+			f = strings.SplitN(ans, " |", 2)
+		}
+		wantEff, wantActs := "", ""
+		if len(f) == 2 {
+			wantEff = strings.TrimSpace(strings.TrimPrefix(strings.TrimPrefix(f[0], "0"), "1"))
+			wantActs = strings.TrimSpace(f[1])
+		}
+		real := append([]string{}, c.Acts...)
+		if c.Sync != "" {
+			real = append(real, c.Sync)
+		}
+		rn.res.Compared(2)
+		if len(f) != 2 || wantActs != strings.Join(real, " ") {
+			rn.res.Mismatch(lib.Mismatch{Sig: "state-machine-actions-" + what, Input: map[string]any{"replay": rp, "call": c},
+				Model: ans, Impl: strings.Join(real, " ")})
+		} else if got := effToks(byCall[ci]); wantEff != got {
+			rn.res.Mismatch(lib.Mismatch{Sig: "execute-effects-" + what, Input: map[string]any{"replay": rp, "call": c},
+				Model: ans, Impl: got})
+		}
+	}
 	ci := 0
 	h := ep.boot
 	for _, tok := range ep.loaded {
-		ans := rn.ask(fmt.Sprintf("rentry %d %s", h, tok))
 		fed := ci < len(ep.calls) && ep.calls[ci].Replay && ep.calls[ci].In == tok && ep.calls[ci].HBefore == h
+		var ans string
+		if machine {
+			ans = rn.ask("rin " + tok)
+		} else {
+			ans = rn.ask(fmt.Sprintf("rentry %d %s", h, tok))
+		}
 		rn.res.Compared(1)
 		switch {
-		case ans == "feed" && fed:
-			check(ci, "ract")
+		case ans != "skip" && ans != "" && fed:
+			if machine {
+				checkM(ci, ans, "ract")
+			} else {
+				check(ci, "ract")
+			}
 			h = ep.calls[ci].HAfter
 			ci++
 			rn.res.Hit("replay-entry-fed")
@@ -198,8 +235,29 @@ func (rn *runner) tie(ep *epoch, rp Replay) {
 			rn.res.Mismatch(lib.Mismatch{Sig: "replay-call-not-in-log", Input: rp, Impl: ep.calls[ci].In})
 			continue
 		}
-		check(ci, "live")
+		if machine {
+			checkM(ci, rn.ask("in "+ep.calls[ci].In), "live")
+		} else {
+			check(ci, "live")
+		}
 	}
+}
+
+// bootModel tells the Lean driver which validator set / node the model machine has and creates it.
+func (rn *runner) bootModel(cfg *Cfg, height uint64) {
+	if cfg.AppMode != "stable" {
+		return
+	}
+	pw := make([]string, len(cfg.Powers))
+	for i, p := range cfg.Powers {
+		pw[i] = strconv.FormatUint(p, 10)
+	}
+	tb := make([]string, len(cfg.Tbl))
+	for i, t := range cfg.Tbl {
+		tb[i] = strconv.Itoa(t)
+	}
+	rn.ask(fmt.Sprintf("env %d %d %s %s", cfg.Me+1, cfg.PMul, strings.Join(pw, ","), strings.Join(tb, ",")))
+	rn.ask(fmt.Sprintf("boot %d", height))
 }
 
 func entryHeight(tok string) int {
@@ -663,6 +721,7 @@ func (rn *runner) explore(cfg *Cfg, script []Input, startIdx int, ep *epoch, lin
 			if want != got {
 				rn.res.Mismatch(lib.Mismatch{Sig: "crash-image-log", Input: rp, Model: ans, Impl: want})
 			}
+			rn.bootModel(cfg, rec.boot)
 			rn.tie(rec, rp)
 		}
 		rn.hypotheses(rec, rp)
@@ -783,6 +842,7 @@ func (rn *runner) graceful(cfg *Cfg, script []Input, ep *epoch) {
 		if got := stripPruned(ans); want != got {
 			rn.res.Mismatch(lib.Mismatch{Sig: "image-after-regular-stop", Input: rp, Model: ans, Impl: want})
 		}
+		rn.bootModel(cfg, rec.boot)
 		rn.tie(rec, rp)
 	}
 	rn.hypotheses(rec, rp)
@@ -989,6 +1049,7 @@ func (rn *runner) rootCase(cfg *Cfg, script []Input, genLen int, r *lib.RNG, fix
 	rn.res.SetExtra("driver_timeout_channel_found", ep.timeoutCh != nil)
 	// correspondence of the uncrashed run
 	rn.ask(fmt.Sprintf("reset %d", cfg.C0))
+	rn.bootModel(cfg, cfg.C0+1)
 	rn.tie(ep, rp)
 	rn.hypotheses(ep, rp)
 	rn.oracle(cfg, ep, lineage{props: map[[2]int][]string{}}, rp, -1, "")
@@ -1014,6 +1075,31 @@ func (rn *runner) rootCase(cfg *Cfg, script []Input, genLen int, r *lib.RNG, fix
 	if rn.noFault {
 		return
 	}
+	// the chain moved on WITHOUT the driver (blocks stored by the sync service while the validator
+	// was down): restart on the image of a crash point with the chain 1 or 2 heights further
+	for j := 0; j < 2 && len(ep.effects) > 0; j++ {
+		k := r.Intn(len(ep.effects) + 1)
+		ahead := ep.chainAt[k] + 1 + uint64(r.Intn(2))
+		rp := Replay{Cfg: *cfg, Script: script, Kills: []Kill{{K: k}}, Note: fmt.Sprintf("restart with the chain at %d (ahead of the driver's last delivery %d)", ahead, ep.chainAt[k])}
+		rec, err := startEpoch(cfg, rn.dir(), ep.snaps[ep.snapAt[k]], ahead, 1, -1)
+		if err != nil {
+			violate(lib.Violation{Sig: "restart-fails-with-chain-ahead", What: err.Error(), Replay: rp})
+		}
+		if rec != nil {
+			for i := 0; err == nil && i < len(script); i++ {
+				if script[i].K != "t" {
+					err = rec.feed(i, script[i])
+				}
+			}
+			rec.stop()
+			lin := lineage{props: map[[2]int][]string{}}.extend(ep, k, Kill{K: k})
+			lin.unlogged = true // no state oracle here: the log is behind the chain by construction
+			rn.oracle(cfg, rec, lin, rp, bootBoundary(rec), "")
+			rn.res.Hit("restart-with-chain-ahead")
+			rn.res.Case(fmt.Sprintf("%v|%v|ahead%d@%d", *cfg, script, ahead, k), true)
+			rec.cleanup()
+		}
+	}
 	// fault injection at (a sample of) the flushes and commit deliveries of the run
 	var fk []int
 	for k, e := range ep.effects {
@@ -1024,6 +1110,53 @@ func (rn *runner) rootCase(cfg *Cfg, script []Input, genLen int, r *lib.RNG, fix
 	lib.Shuffle(r, fk)
 	for i := 0; i < len(fk) && i < rn.f.Scale(2, 6); i++ {
 		rn.faulty(cfg, script, ep, fk[i])
+	}
+}
+
+// staleActionsProbe: driver.listen, sync branch: when the block fetcher reports an error the loop
+// variable `actions` is not reset, and the `execute` after the select runs the PREVIOUS input's
+// actions again. Not a C13 violation by itself (same votes again, duplicate log entries that replay
+// ignores); recorded in the evidence so that the behaviour is known to be what the notes say.
+func (rn *runner) staleActionsProbe() {
+	cfg := &Cfg{Powers: []uint64{1, 1, 1, 1}, Tbl: []int{1, 2, 3, 0}, PMul: 1, Me: 3, C0: 0, AppMode: "stable"}
+	ep, err := startEpoch(cfg, rn.dir(), "", cfg.C0, 0, -1)
+	if err != nil {
+		rn.res.Fatalf("stale-actions probe could not start: %v", err)
+		return
+	}
+	defer ep.cleanup()
+	ep.noDumps = true
+	ep.noSentinel = true
+	if err := ep.feed(0, Input{K: "p", H: 1, R: 0, Sender: 2, VR: -1, Val: 41}); err != nil {
+		rn.res.Fatalf("stale-actions probe: %v", err)
+	}
+	if err := ep.feed(1, Input{K: "syncerr"}); err != nil {
+		rn.res.Fatalf("stale-actions probe: %v", err)
+	}
+	ep.noSentinel = false
+	if err := ep.sync(); err != nil {
+		rn.res.Fatalf("stale-actions probe: %v", err)
+	}
+	// effects of the proposal: append, flush, prevote — anything after the first prevote is a repeat
+	before := len(ep.effects)
+	for i, e := range ep.effects {
+		if strings.HasPrefix(e.Tok, "sv:") {
+			before = i + 1
+			break
+		}
+	}
+	again := effToks(ep.effects[before:])
+	ep.stop()
+	rn.res.SetExtra("after_failed_block_fetch_the_driver_performs_the_previous_actions_again", again != "")
+	if again != "" {
+		rn.res.Hit("stale-actions-reexecuted-after-failed-block-fetch")
+		for _, v := range votesOf(ep.effects[before:]) {
+			for _, w := range votesOf(ep.effects[:before]) {
+				if v.kind == w.kind && v.h == w.h && v.r == w.r && v.id != w.id {
+					violate(lib.Violation{Sig: "conflicting-vote-from-stale-actions-after-failed-block-fetch", What: again, Replay: Replay{Cfg: *cfg}})
+				}
+			}
+		}
 	}
 }
 
@@ -1236,6 +1369,7 @@ func main() {
 	}
 	close(ch)
 	wg.Wait()
+	(&runner{f: f, res: res, base: filepath.Join(base, "probe")}).staleActionsProbe()
 	os.RemoveAll(base)
 	flushViolations(res)
 	lib.Finish(f, res)
